@@ -309,8 +309,10 @@ def check(repo: Repo, run: Run) -> None:
                         ev, it, conds = data.a[2][0]
                         sel = named_selection(T("comp", ("list", ev, data.a[2])), "PERF_STK_UData")
                         words = data.a[1]
-                        all_words = words == T("call", (T("builtin", ("list",)), (T("attr", (ev, "values")),), ())) \
-                            or words == T("attr", (ev, "values"))
+                        vals_ = T("attr", (ev, "values"))
+                        all_words = words == T("call", (T("builtin", ("list",)), (vals_,), ())) or words == vals_ \
+                            or words in (T("list", (tuple(T("sub", (vals_, const(i))) for i in range(4)),)),
+                                         T("tuple", (tuple(T("sub", (vals_, const(i))) for i in range(4)),)))
                         ok_val = sel is not None and all_words
         ok = ok_out and hdr is not None and ok_val
         detail = {"flag_gate": ok_out, "header_selection": hdr is not None, "frames_form": ok_val}
